@@ -1,7 +1,8 @@
 ----------------------------- MODULE OrderJudge -----------------------------
 (* Judge of the records written by harness/c17_*.cpp (C17).
 
-   order    one record per C++ type: n values, comp[i] (observable components),
+   order    one record per C++ type (or pair of types that the library compares with each
+            other): family (the fcppt template), type, n values, comp[i] (observable components),
             how[i] (how the value was produced), has (the relations the type
             offers, as detected by the compiler), and the n x n 0/1 matrices EQ, NE,
             LT, LE, GT, GE, HEQ (<<>> when not offered).  The axioms of Order.tla are
@@ -23,11 +24,20 @@ ST == INSTANCE StrongTypedef WITH Base <- 256, L <- 4
 If(c, reason) == IF c THEN {reason} ELSE {}
 SetOf(xs) == {xs[i] : i \in 1..Len(xs)}
 
-(* what the headers document about the order itself (Order.tla, "documented orders") *)
-LexTypes == {"optional<int>", "optional<optional<int>>", "variant<int,long>", "strong_typedef<int>",
-             "strong_typedef<int>/std::hash", "strong_typedef<unsigned>", "vector<int,2>", "vector<int,3>",
-             "dim<int,2>", "box<int,2>", "box<int,1>", "grid<int,2>", "raw_vector<int>"}
-TotalTypes == {"reference<int>", "reference<int>/std::hash", "shared_ptr<int>", "shared_ptr<int>/std::hash"}
+(* what the headers document about the order itself (Order.tla, "documented orders"), per FAMILY of
+   types (the field "family" of an order record names the fcppt template, "type" the instantiation):
+     optional        "has_value first", then the values (optional<int>, optional<optional<int>>,
+                     optional<reference<int>>: the references are ordered by the address of their
+                     objects, which are elements of one array - the component is the array index)
+     variant         "(type_index, value)"
+     strong_typedef  the order of the wrapped values
+     vector, dim     std::lexicographical_compare of the coordinates
+     box             "(pos, size)" pair
+     grid            "size, then lexicographical_compare"
+     raw_vector      std::lexicographical_compare
+     reference, shared_ptr   std::less on the pointers: total on distinct objects *)
+LexFamilies == {"optional", "variant", "strong_typedef", "vector", "dim", "box", "grid", "raw_vector"}
+TotalFamilies == {"reference", "shared_ptr"}
 
 IsMatrix(n, M) == Len(M) = n /\ \A a \in 1..n : Len(M[a]) = n /\ \A b \in 1..n : M[a][b] \in {0, 1}
 
@@ -35,6 +45,7 @@ OrderReasons(r) ==
   LET n == r.n
       has == SetOf(r.has)
       t == r.type
+      fam == r.family
       Off(name) == name \in has
       wellformed == /\ Len(r.comp) = n /\ Len(r.how) = n
                     /\ has \subseteq {"EQ", "NE", "LT", "LE", "GT", "GE", "HEQ"}
@@ -54,8 +65,8 @@ OrderReasons(r) ==
                   \cup If(~LtTransitive(n, r.LT), "lt-not-transitive@" \o t)
                   \cup If(~IncTransitive(n, r.LT), "lt-incomparability-not-transitive@" \o t)
                   \cup If(~LtCompatibleWithEq(n, r.EQ, r.LT), "lt-incompatible-with-eq@" \o t)
-                  \cup (IF t \in LexTypes THEN If(~DocumentedLex(n, r.comp, r.LT), "lt-not-the-documented-order@" \o t) ELSE {})
-                  \cup (IF t \in TotalTypes THEN If(~DocumentedTotal(n, r.EQ, r.LT), "lt-not-total-on-distinct-objects@" \o t) ELSE {})
+                  \cup (IF fam \in LexFamilies THEN If(~DocumentedLex(n, r.comp, r.LT), "lt-not-the-documented-order@" \o t) ELSE {})
+                  \cup (IF fam \in TotalFamilies THEN If(~DocumentedTotal(n, r.EQ, r.LT), "lt-not-total-on-distinct-objects@" \o t) ELSE {})
              ELSE {})
        \cup (IF Off("LE") THEN If(~LeDerived(n, r.LT, r.LE), "le-not-derived-from-lt@" \o t) ELSE {})
        \cup (IF Off("GT") THEN If(~GtDerived(n, r.LT, r.GT), "gt-not-derived-from-lt@" \o t) ELSE {})
@@ -213,7 +224,7 @@ OwnReasons(r) ==
   ELSE OwnFold(r, 1, OW(r.ns, r.nw, r.nu)!InitState)
 
 C17Reasons(r) ==
-  CASE r.f = "order" -> OrderReasons(r)
+  CASE r.f \in {"order", "orderx"} -> OrderReasons(r)
     [] r.f = "st_int" -> StIntReasons(r)
     [] r.f = "st_u32" -> StU32Reasons(r)
     [] r.f = "wrap" -> WrapReasons(r)
@@ -230,7 +241,10 @@ C17Reasons(r) ==
      order           "== is an equivalence that holds exactly when all observable components are
                      equal, != is its negation, < is a strict weak order compatible with ==, and
                      equal values have equal hashes" for the listed types
-   Observed only: wrapx (conversions between wrappers, copy depth of recursive, strong_typedef
+   Observed only: orderx (an order record, judged like "order", that the harness may mark as
+   outside the statement - none at present; the mixed-pointee shared_ptr set was one until the
+   fix 0894e76 of operator< was committed),
+   wrapx (conversions between wrappers, copy depth of recursive, strong_typedef
    map/apply/IO, fcppt::function), own (ownership, use counts, lifetime, lock/expired). *)
 InScope == {"order", "st_int", "st_u32", "wrap"}
 =============================================================================
